@@ -19,19 +19,19 @@ PROP = {'drive': ['Dsl'],
                        'C19_roundtrip_lists',
                        'C19_roundtrip_gpos1',
                        'C19_roundtrip_gpos_lists',
-                       'C19_roundtrip_gpos2_partial',
+                       'C19_roundtrip_gpos2',
                        'C19_glyphlist_roundtrip',
                        'C19_total_partial'],
  'areas': [('dsl', 6000, 60000)],
  'rule': 'distinct case lines (font = glyph count, names, cmap; text or lookup list; GOMAXPROCS); non-trivial = '
          'text of at least two bytes / at least one lookup / a non-zero flag set',
- 'partial': ['C19_roundtrip_full t (GSUB t = 1..4), C19_roundtrip_gpos_full t (GPOS t = 1, 2) and '
-             'C19_glyphlist_roundtrip_full (all fonts and lookups of the domain) are stated; proved are the '
-             'exhaustive universes C19_roundtrip_gsub{1,2,3,4}_partial, C19_roundtrip_gpos{1,2}_partial, '
-             'C19_roundtrip_subtables_partial, C19_roundtrip_lists_partial, C19_glyphlist_roundtrip_partial over two '
-             'small fonts (numbers/ranges; names, strings with escapes), by kernel evaluation of the whole '
-             'pipeline printer -> UTF-8 -> lexer -> parser; beyond them the round trip is checked on the real code '
-             '(stream dsl.roundtrip) and on the model (dsl.modelrt)',
+ 'partial': ['round trips proved for ALL fonts of the domain FontOk and ALL lookups of the domain (any of the 16 flag '
+             'sets, any number of subtables and of lookups): glyph lists (C19_glyphlist_roundtrip), GSUB 1 with ranges '
+             'and the 1.1/1.2 identification, GSUB 2, 3, 4, mixed GSUB descriptions (C19_roundtrip_gsub1..4, '
+             'C19_roundtrip_lists), GPOS 1 (formats 1.1, 1.2), GPOS 2 (format 2.1 glyph pairs and format 2.2 class matrix, '
+             'in any order; readGpos2 taking the line break after the last matrix row is part of the proof) and mixed '
+             'GPOS descriptions (C19_roundtrip_gpos1, C19_roundtrip_gpos2, C19_roundtrip_gpos_lists); the small '
+             'universes remain as kernel-evaluated examples',
              'GSUB 5/6 and GPOS 3/4: parser and printer not modelled in Lean; the round trip Parse(Explain(l)) = l is '
              'evaluated on the real code only (stream dsl.rtseed: lookups regenerated from the seed in the case line, '
              'structural comparison in the harness, Lean side fixes the verdict), plus dsl.total and dsl.goroutines',
@@ -54,12 +54,15 @@ PROP = {'drive': ['Dsl'],
                            '(coverage is sorted, isConstDelta is order-independent)',
                            'error messages are compared by class (leading words of the format string) and line, '
                            'not by full text'],
- 'assumptions': ['Dom (round trip): FontOk (fewer than 65536 glyphs, non-empty glyph names distinct and lexing as one '
-                 'identifier, cmap into the font) and LookupOk (flags within the 4 covered bits, one or more subtables, '
-                 'coverage in ascending index order, glyph ids inside the font, non-empty right-hand sides where '
-                 'the parser insists on them)',
-                 'Parse needs a font with a cmap table: without one it returns "cmap: no cmap table found" '
-                 'before reading the text (an error without line number; reported as an observation)']}
+ 'assumptions': ['Dom (round trip): FontOk (fewer than 65536 glyphs; non-empty glyph names pairwise distinct and each the '
+                 'UTF-8 text of one identifier of the language; cmap runes distinct, glyphs inside the font; a font '
+                 'without cmap table has no mappings) and, per form, LookupNOk: flags within the 4 covered bits, at '
+                 'least one subtable, coverage strictly ascending (canonical index order), glyph ids inside the font, '
+                 'non-empty right-hand sides where the parser insists on them (GSUB 2 sequences, GSUB 4 ligature lists), '
+                 'value-record fields in int16, GPOS 2.1 pairs in ascending order, GPOS 2.2 coverage ascending, class '
+                 'lists ascending by glyph with the classes 1..k all used, matrix of (k1+1) x (k2+1) entries',
+                 'the models mirror the builder including the repairs 12 (NUL byte) and 13 (font without cmap), both '
+                 'committed in /repo']}
 
 LEVEL = {'text': 'Proof (partial): Lean models of the lexer (token machine over Go-decoded UTF-8, line counting), of '
          'Parse for lookup flags, glyph lists/sets/ranges/strings, GSUB 1-4 and GPOS 1-2, of ExplainGsub/ExplainGpos for the same, and a '
@@ -69,14 +72,14 @@ LEVEL = {'text': 'Proof (partial): Lean models of the lexer (token machine over 
          '(C19_flags, C19_flags_same_spelling); all maximal schedules are finite and end in the same state '
          '(C19_confluent, C19_terminates) in which, for the repaired Parse, no process is blocked (C19_no_leak), '
          'while the unrepaired structure provably leaks the decoder goroutine (C19_leak_before_repair). Round '
-         'trips parse(explain l) = l are proved over exhaustive small universes per GSUB form and stated in full. '
+         'trips parse(explain l) = l are proved for every font and lookup of the domain for glyph lists, GSUB 1-4, '
+         'GPOS 1 and GPOS 2 (formats 2.1 and 2.2) and for descriptions mixing them (induction over the structure: '
+         'lexing of rendered pieces, a fragment logic for the parser, per-form lemmas). '
          'Tied to the code by output-exact correspondence (items with lines, Parse outcomes with line and error '
          'class, Explain text byte for byte) and by evaluating the round trip, totality and goroutine counts on '
          'the real code.',
  'note': 'Trusted: Lean kernel + 3 standard axioms; hand-written models mirror lexer.go/parser.go/explain.go as '
          'checked by sampled correspondence; Go runtime semantics of unbuffered channels; Unicode tables of the '
-         'toolchain (regenerated). Eleven defects were repaired in the working tree (flag spellings, decoder '
-         'goroutine leak, line 0 in errors, alternates re-sorted, %q escapes, || for GSUB 1-4, numeric ranges, ranges '
-         'in GSUB4, class definitions glued to flags, double line break before later GPOS2.2/GPOS4 subtables, dy).',
+         'toolchain (regenerated). Thirteen defects repaired in /repo (all committed as fix: builder: ...).',
  'technique': 'Lean 4 proofs (induction over inputs and schedules, diamond property, kernel evaluation of finite '
               'universes) + differential correspondence + direct evaluation on the real code'}
